@@ -88,6 +88,95 @@ func countedLoops(fn *ssa.Function) []*countedLoop {
 	return out
 }
 
+// constLen: the constant length of a slice/array value (make with a constant length, an array, a re-slice of one).
+func constLen(v ssa.Value, d int) (int64, bool) {
+	if d > 4 {
+		return 0, false
+	}
+	t := v.Type()
+	if p, ok := t.Underlying().(*types.Pointer); ok {
+		t = p.Elem()
+	}
+	if a, ok := t.Underlying().(*types.Array); ok {
+		return a.Len(), true
+	}
+	switch x := v.(type) {
+	case *ssa.MakeSlice:
+		return core.ConstInt(x.Len)
+	case *ssa.Slice:
+		if x.High != nil {
+			hi, ok := core.ConstInt(x.High)
+			if !ok {
+				return 0, false
+			}
+			lo := int64(0)
+			if x.Low != nil {
+				l, ok := core.ConstInt(x.Low)
+				if !ok {
+					return 0, false
+				}
+				lo = l
+			}
+			return hi - lo, true
+		}
+		if x.Low == nil {
+			return constLen(x.X, d+1)
+		}
+	case *ssa.Phi:
+		// a slice variable that is only ever the same made slice
+		n, okAll := int64(-1), true
+		for _, e := range x.Edges {
+			if e == ssa.Value(x) {
+				continue
+			}
+			k, ok := constLen(e, d+1)
+			if !ok || (n >= 0 && n != k) {
+				okAll = false
+			}
+			n = k
+		}
+		if okAll && n >= 0 {
+			return n, true
+		}
+	}
+	return 0, false
+}
+
+// tripCount: the constant number of iterations of a counted loop.
+func (cl *countedLoop) tripCount() (int64, bool) {
+	a, okA := core.ConstInt(cl.init)
+	if !okA || (cl.step != 1 && cl.step != -1) {
+		return 0, false
+	}
+	b, okB := core.ConstInt(cl.bound)
+	if !okB {
+		if x, isLen := core.IsLenOf(cl.bound); isLen {
+			b, okB = constLen(x, 0)
+		}
+	}
+	if !okB {
+		return 0, false
+	}
+	switch {
+	case cl.step == 1 && cl.op == token.LSS:
+		return max64(b-a, 0), true
+	case cl.step == 1 && cl.op == token.LEQ:
+		return max64(b-a+1, 0), true
+	case cl.step == -1 && cl.op == token.GEQ:
+		return max64(a-b+1, 0), true
+	case cl.step == -1 && cl.op == token.GTR:
+		return max64(a-b, 0), true
+	}
+	return 0, false
+}
+
+func max64(a, b int64) int64 {
+	if a > b {
+		return a
+	}
+	return b
+}
+
 func ssaConstInt(k int64) ssa.Value { return ssa.NewConst(constant.MakeInt64(k), types.Typ[types.Int]) }
 
 func negateTok(op token.Token) token.Token {
@@ -243,9 +332,23 @@ func RuleG7(c *Ctx) {
 
 	// closure
 	tgt, mc := closureOf(g.Call.Value)
-	if tgt == nil || mc == nil {
+	if tgt == nil {
 		c.Und("G7", "Execute:closure", g.Pos(), "cannot resolve the spawned closure")
 		return
+	}
+	// what a value of the spawned function is bound to in Execute: a captured cell, or the argument of the go statement
+	boundTo := func(v ssa.Value) ssa.Value {
+		switch x := v.(type) {
+		case *ssa.FreeVar:
+			return core.FreeVarBinding(x)
+		case *ssa.Parameter:
+			for pi, q := range tgt.Params {
+				if q == x && pi < len(g.Call.Args) {
+					return g.Call.Args[pi]
+				}
+			}
+		}
+		return nil
 	}
 	// wg
 	var wgCell *ssa.Alloc
@@ -299,16 +402,31 @@ func RuleG7(c *Ctx) {
 		if _, plain := workCalls[0].(*ssa.Call); !plain {
 			okWork = false
 		}
-		// the callee value is Execute's `work` parameter
-		if u, isLoad := workCalls[0].Common().Value.(*ssa.UnOp); isLoad {
-			if fv, isFV := u.X.(*ssa.FreeVar); isFV {
-				if al, isAl := core.FreeVarBinding(fv).(*ssa.Alloc); !isAl || core.ParamSpill(al) == nil || core.ParamSpill(al).Name() != "work" {
-					okWork = false
+		// the callee value is Execute's `work` parameter (captured, or handed over as an argument)
+		isWork := func(v ssa.Value) bool {
+			if p, isP := v.(*ssa.Parameter); isP && p.Parent() == fn {
+				return p.Name() == "work"
+			}
+			if u, isLoad := v.(*ssa.UnOp); isLoad && u.Op == token.MUL {
+				if al, isAl := u.X.(*ssa.Alloc); isAl && core.ParamSpill(al) != nil {
+					return core.ParamSpill(al).Name() == "work"
 				}
-			} else {
+			}
+			if al, isAl := v.(*ssa.Alloc); isAl && core.ParamSpill(al) != nil {
+				return core.ParamSpill(al).Name() == "work"
+			}
+			return false
+		}
+		switch x := workCalls[0].Common().Value.(type) {
+		case *ssa.UnOp:
+			if b := boundTo(x.X); b == nil || !isWork(b) {
 				okWork = false
 			}
-		} else {
+		case *ssa.Parameter:
+			if b := boundTo(x); b == nil || !isWork(b) {
+				okWork = false
+			}
+		default:
 			okWork = false
 		}
 	}
@@ -316,7 +434,7 @@ func RuleG7(c *Ctx) {
 	c.Check(okWork, "G7", "Execute:closure-calls-work-once", tgt.Pos(), "the spawned closure does not call the work function exactly once on every path", "one call of work, post-dominating the closure's entry")
 	okDone := len(dones) == 1 && len(workCalls) == 1 && core.PostDominatesEntry(tgt, dones[0])
 	if okDone {
-		if fv, isFV := dones[0].Common().Args[0].(*ssa.FreeVar); !isFV || core.FreeVarBinding(fv) != ssa.Value(wgCell) {
+		if b := boundTo(dones[0].Common().Args[0]); b != ssa.Value(wgCell) {
 			okDone = false
 		}
 		if _, isDefer := dones[0].(*ssa.Defer); !isDefer {
